@@ -85,7 +85,7 @@ theorem str_replace_two (s : Str) (a b : Nat) (n : Str) :
 theorem contains_set_str (l : List PyVal) (p : Str) :
     contains_set (.tuple l) (.str p) = .ok (l.any (PyVal.eq (.str p))) := by rfl
 
-theorem gt_nat_zero (d : Nat) : gt (.int (d : Int)) (.int 0) = .ok (.bool (decide (d > 0))) := by
+theorem gt_int (a b : Int) : gt (.int a) (.int b) = .ok (.bool (decide (a > b))) := by
   simp [gt, cmp, asInt, Cmp.onInt]
 
 theorem add_nat_one (d : Nat) : add (.int (d : Int)) (.int 1) = .ok (.int ((d + 1 : Nat) : Int)) := by
@@ -104,6 +104,11 @@ def kstr : Kind → Str
   | .with => [119, 105, 116, 104]
   | .lic => [108, 105, 99, 101, 110, 115, 101]
   | .exc => [101, 120, 99, 101, 112, 116, 105, 111, 110]
+
+theorem closes_eq (k : Kind) :
+    (kstr k == [41] || (kstr k == [108, 105, 99, 101, 110, 115, 101] ||
+      kstr k == [101, 120, 99, 101, 112, 116, 105, 111, 110])) = k.closes := by
+  cases k <;> decide
 
 /-- one iteration of the first loop on (`depth`, `previous`); `none` = `raise` -/
 def step (t : Str) (d : Nat) (k : Kind) : Option (Nat × Kind) :=
@@ -176,5 +181,176 @@ theorem loop1 {σ β : Type} (dep prev : σ → PyVal) (f : PyVal → σ → M (
       simp only [ok_bind]
       exact ih d' k' s' h2 h3 hR
 
+/-! ### second loop -/
+
+/-- one iteration of the second loop: the token appended to `normalized_tokens`; `none` = `raise` -/
+def normStep (prev : Option Str) (o t : Str) : Option Str :=
+  if isGrammar t then some (upperOp t) else normWord prev o t
+
+theorem normGo_cons (o t : Str) (ts : List (Str × Str)) (prev : Option Str) :
+    normGo ((o, t) :: ts) prev = match normStep prev o t with
+      | none => none
+      | some w => (normGo ts (some w)).map (w :: ·) := by
+  simp only [normGo, normStep]
+  split
+  · rfl
+  · split <;> simp_all
+
+/-- the items of `zip(original_tokens, tokens)` -/
+def pairVal (p : Str × Str) : PyVal := .tuple [.str p.1, .str p.2]
+
+theorem zipVals_strs : ∀ (a b : List Str), zipVals (a.map .str) (b.map .str) = (a.zip b).map pairVal
+  | [], _ => by simp [zipVals]
+  | _ :: _, [] => by simp [zipVals]
+  | x :: xs, y :: ys => by simp [zipVals, zipVals_strs xs ys, pairVal]
+
+theorem zip2_strs (a b : List Str) :
+    zip2 (.list (a.map .str)) (.list (b.map .str)) = .ok (.iter ((a.zip b).map pairVal)) := by
+  simp only [zip2, iterate_list, ok_bind, pure_ok, zipVals_strs]
+
+/-- the second loop over an abstract body `f` that appends the model's token to the component `nt` of the state,
+followed by `k` -/
+theorem loop2 {σ β : Type} (nt : σ → PyVal) (f : PyVal → σ → M (ForInStep σ)) (k : σ → M β) (R : M β)
+    (hf : ∀ (o t : Str) (s : σ) (acc : List Str), nt s = .list (acc.map .str) →
+      match normStep acc.getLast? o t with
+      | none => f (pairVal (o, t)) s = .error "InvalidLicenseExpression"
+      | some w => ∃ s', f (pairVal (o, t)) s = .ok (.yield s') ∧ nt s' = .list ((acc ++ [w]).map .str)) :
+    ∀ (pairs : List (Str × Str)) (acc : List Str) (init : σ), nt init = .list (acc.map .str) →
+    (match normGo pairs acc.getLast? with
+      | none => R = .error "InvalidLicenseExpression"
+      | some r => ∀ s', nt s' = .list ((acc ++ r).map .str) → k s' = R) →
+    (forIn (pairs.map pairVal) init f >>= k) = R := by
+  intro pairs
+  induction pairs with
+  | nil =>
+    intro acc init hn hR
+    simp only [normGo] at hR
+    simpa using hR init (by simpa using hn)
+  | cons p ps ih =>
+    obtain ⟨o, t⟩ := p
+    intro acc init hn hR
+    have h := hf o t init acc hn
+    rw [normGo_cons] at hR
+    simp only [List.map_cons, List.forIn_cons]
+    cases hs : normStep acc.getLast? o t with
+    | none =>
+      simp only [hs] at h hR
+      rw [h, hR]; rfl
+    | some w =>
+      simp only [hs] at h hR
+      obtain ⟨s', h1, h2⟩ := h
+      rw [h1]
+      simp only [ok_bind]
+      refine ih (acc ++ [w]) s' h2 ?_
+      simp only [List.getLast?_append, List.getLast?_singleton, Option.some_or]
+      cases hg : normGo ps (some w) with
+      | none => simpa [hg] using hR
+      | some r =>
+        simp only [hg, Option.map_some] at hR
+        intro s'' hs''
+        exact hR s'' (by simpa using hs'')
+
+theorem join_sp : ∀ l : List Str, Py.join [32] l = joinSp l
+  | [] => rfl
+  | [x] => rfl
+  | x :: y :: r => by
+    simp only [Py.join, joinSp, List.append_assoc, List.singleton_append] at *
+    rw [← join_sp (y :: r)]
+
+theorem unpack2_tuple (a b : PyVal) : unpack2 (.tuple [a, b]) = .ok (a, b) := by rfl
+
+theorem str_split0_str (s : Str) : PyLic.str_split0 (.str s) = .ok (.list ((Lic.split s).map .str)) := by rfl
+theorem ascii_lower_str (s : Str) : PyLic.ascii_lower (.str s) = .ok (.str (lowerStr s)) := by rfl
+
 end LicP
+open LicP
+
+/-- evaluation of one iteration of the first loop once the token and `previous` are known -/
+local macro "step_simp" "[" ts:Lean.Parser.Tactic.simpLemma,* "]" : tactic =>
+  `(tactic| simp [step, kstr, Lic.Kind.opens, Lic.Kind.closes, eq_str, contains_set_str, s_lp, s_rp, s_or, s_and, s_with,
+      s_operator, s_license, s_exception, add_nat_one, gt_int, PyRt.eq, Lic.kLP, Lic.kRP, Lic.kOr, Lic.kAnd, Lic.kWith,
+      $ts,*])
+
+theorem canonicalize_license_expression_eq_model (raw : Str) :
+    Gen.PySrc.canonicalize_license_expression (.str raw) =
+      match Lic.canon raw with
+      | some s => .ok (.str s)
+      | none => .error "InvalidLicenseExpression" := by
+  unfold Gen.PySrc.canonicalize_license_expression
+  by_cases hr : raw.isEmpty = true
+  · simp [Lic.canon, hr]
+  · simp only [truthy_str, hr, s_lp, s_rp, s_padl, s_padr, str_replace_one, ok_bind, str_split0_str, ascii_lower_str,
+      iterate_list, Bool.not_false, Bool.not_true, Bool.false_eq_true, if_false]
+    have hpad : Lic.replace1 41 [32, 41, 32] (Lic.replace1 40 [32, 40, 32] raw) = Lic.pad raw := rfl
+    simp only [hpad, Lic.canon, hr, Lic.canonT]
+    generalize Lic.split (Lic.pad raw) = orig
+    generalize Lic.split (lowerStr (Lic.pad raw)) = toks
+    refine loop1 (fun s => s.2.1) (fun s => s.2.2) _ _ _ ?hf toks 0 .lp _ rfl rfl ?hR
+    case hf =>
+      intro t s d kd hd hp
+      obtain ⟨v, dp, pv⟩ := s
+      simp only at hd hp
+      subst hd hp
+      by_cases h1 : t = [40]
+      · subst h1
+        cases kd <;> step_simp []
+      by_cases h2 : t = [41]
+      · subst h2
+        by_cases hd : d > 0
+        · cases kd <;> step_simp [hd] <;> omega
+        · have hd0 : d = 0 := by omega
+          subst hd0
+          cases kd <;> step_simp []
+      by_cases h3 : t = [111, 114] ∨ t = [97, 110, 100]
+      · cases kd <;> step_simp [h1, h2, h3]
+      by_cases h4 : t = [119, 105, 116, 104]
+      · cases kd <;> step_simp [h1, h2, h3, h4]
+      · cases kd <;> step_simp [h1, h2, h3, h4]
+    case hR =>
+      simp only [structGo_eq_end]
+      cases hE : structEnd toks 0 .lp with
+      | none => simp
+      | some r =>
+        obtain ⟨d', k'⟩ := r
+        simp only
+        intro s' hd hp
+        obtain ⟨v, dp, pv⟩ := s'
+        simp only at hd hp
+        subst hd hp
+        simp only [gt_int, ok_bind, pure_ok, truthy_bool, contains_set_str, List.any_cons, List.any_nil, eq_str,
+          s_license, s_exception, Bool.or_false, closes_eq, throw_err, err_bind]
+        by_cases hd : d' > 0
+        · have hd' : decide ((d' : Int) > 0) = true := by simp only [decide_eq_true_eq]; omega
+          simp only [hd', if_true, ok_bind, truthy_bool, hd, decide_true, Bool.true_or, Bool.not_true, Bool.not_false,
+            Bool.false_eq_true, if_false]
+        have hd' : decide ((d' : Int) > 0) = false := by simp only [decide_eq_false_iff_not]; omega
+        by_cases hk : k'.closes = true
+        case neg =>
+          have hk' : k'.closes = false := by simpa using hk
+          simp only [hd', if_true, ok_bind, truthy_bool, hd, hk', decide_false, Bool.false_or, Bool.not_true, Bool.not_false,
+            Bool.false_eq_true, if_false]
+        simp only [hd', if_true, ok_bind, truthy_bool, hd, hk, decide_false, Bool.false_or, Bool.not_true, Bool.not_false,
+            Bool.false_eq_true, if_false, zip2_strs, iterate_iter]
+        refine loop2 (fun s => s.2.2.2) _ _ _ ?hf2 (orig.zip toks) [] _ rfl ?hR2
+        case hR2 =>
+          simp only [List.getLast?_nil, List.nil_append]
+          cases hN : Lic.normGo (orig.zip toks) none with
+          | none => simp
+          | some r =>
+            simp only
+            intro s' hs'
+            obtain ⟨a, b, c, n⟩ := s'
+            simp only at hs'
+            subst hs'
+            simp only [s_sp, s_lpsp, s_sprp, str_join_list, ok_bind, str_replace_two, join_sp, Option.map_some, Lic.tighten]
+        case hf2 =>
+          intro o t s acc hn
+          obtain ⟨a, b, c, n⟩ := s
+          simp only at hn
+          subst hn
+          simp only [pairVal, unpack2_tuple, ok_bind, contains_set_str, List.any_cons, List.any_nil, eq_str, Bool.or_false,
+            s_or, s_and, s_with, s_WITH, s_plus, s_ref, s_reflower, s_empty]
+          trace_state
+          sorry
+
 end Src
